@@ -1531,13 +1531,13 @@ func (s *State) callsAdvance() {
 	s.assume("(forall ((k Int) (x Int)) (! (>= (select (select " + nw2 + " k) x) (select (select " + old2 + " k) x)) :pattern ((select (select " + nw2 + " k) x))))")
 }
 
-var evLeaves = []string{"ev.kind", "ev.a0", "ev.a1", "ev.a2", "ev.a3", "ev.a4", "ev.a5", "ev.a6", "ev.a7"}
+var evLeaves = []string{"ev.kind", "ev.a0", "ev.a1", "ev.a2", "ev.a3", "ev.a4", "ev.a5", "ev.a6", "ev.a7", "ev.a8", "ev.a9", "ev.a10", "ev.a11"}
 
 // emit appends one event to the trace.
 func (s *State) emit(kind string, args ...string) {
 	n := s.ghost["ev.n"]
 	s.writeLeaf("ev.kind", []string{n}, "Int", s.run.eng.strID(kind))
-	for i := 0; i < 8; i++ {
+	for i := 0; i < 12; i++ {
 		a := "0"
 		if i < len(args) {
 			a = args[i]
